@@ -10,7 +10,19 @@ package main
 // it releases the blocker and cancels the request: the select is then entered with both cases ready, the only
 // thing left to chance is Go's own pseudo-random choice — which the model treats as nondeterministic.
 //
-// Synchronisation never uses sleeps.  After an operation the harness waits for (a) every waiting request whose
+// "handover" — a cancellation while a release is in progress, with the order in which the two get the locker's mutex
+// decided by the harness instead of by the scheduler.  The harness takes the locker's own mutex (overlay export VerifMu),
+// starts the release of holder b in a goroutine and cancels waiter r; each of the two runs freely up to its mu.Lock() and
+// parks there ("first" says which of them is started — and awaited — first).  A goroutine counts as parked when the
+// runtime reports it in state "sync.Mutex.Lock" with sync.(*Mutex).Lock called from package command on its stack: it is
+// then in the semaphore queue of the mutex, which is first in, first out.  Only then the harness unlocks.
+//   first=release: the release runs (and may grant r), then r's cancellation path runs HAVING BEEN GRANTED after it had
+//                  already left the select through ctx.Done() — whatever r decided before it asked for the mutex is stale;
+//   first=cancel : r's cancellation path runs first (r is still queued), then the release.
+// Both outcomes are deterministic; the model has them as the orders "cancel, release, wake(ctx)" / "cancel, wake, release".
+//
+// Synchronisation never depends on timing (the only sleeps are the back-off of the poll for "parked on the mutex", whose
+// outcome is a state, not a duration).  After an operation the harness waits for (a) every waiting request whose
 // context has been cancelled, then (b) as many further returns as the locker's own queue (read through the
 // overlay export, under its mutex) says have been granted: #waiting goroutines - queue length.  Both conditions
 // are decided by state that is final when the synchronous part of the operation has returned.  The watchdog
@@ -19,8 +31,9 @@ package main
 // as a return in that step, where the comparison with the model and the oracle see it.
 //
 // input : {"ops":[{"op":"arrive","r":n,"read":[..],"write":[..],"hold":[{"op":"release","r":b}|{"op":"cancel"}]}
-//                | {"op":"release","r":n} | {"op":"cancel","r":n} | {"op":"race","r":n,"b":m,"skew":k} | {"op":"drain"}]}
-// output: {"steps":[{"res":…, "ret":{"<id>":"ok"|"err"}, "sub":[{"rel":id,"ret":{…}}…] (drain only), "waiting":[ids], "q":[[read,write]…], "rl":{acct:"count"}, "wl":[acct…]}], "dead":why?}
+//                | {"op":"release","r":n} | {"op":"cancel","r":n} | {"op":"race","r":n,"b":m,"skew":k}
+//                | {"op":"handover","r":n,"b":m,"first":"release"|"cancel"} | {"op":"drain"}]}
+// output: {"steps":[{"res":…, "ho":"both-parked"|… (handover only; not compared), "ret":{"<id>":"ok"|"err"}, "sub":[{"rel":id,"ret":{…}}…] (drain only), "waiting":[ids], "q":[[read,write]…], "rl":{acct:"count"}, "wl":[acct…]}], "dead":why?}
 
 import (
 	"context"
@@ -31,6 +44,7 @@ import (
 	"runtime"
 	"sort"
 	"strconv"
+	"strings"
 	"sync/atomic"
 	"time"
 
@@ -72,6 +86,7 @@ func (c *hookCtx) Done() <-chan struct{} {
 
 type lockReq struct {
 	id        int
+	gid       atomic.Int64 // goroutine number of the Lock call (as printed by the runtime)
 	ctx       *hookCtx
 	cancel    context.CancelFunc
 	arrived   bool
@@ -203,6 +218,67 @@ func (h *lockHarness) settle() {
 	h.drainNow()
 }
 
+// goid is the number the runtime prints for the calling goroutine ("goroutine N [running]:").
+func goid() int64 {
+	var buf [64]byte
+	n := runtime.Stack(buf[:], false)
+	f := strings.Fields(string(buf[:n]))
+	if len(f) < 2 {
+		return -1
+	}
+	id, err := strconv.ParseInt(f[1], 10, 64)
+	if err != nil {
+		return -1
+	}
+	return id
+}
+
+// parkedOnLockerMutex: goroutine gid is blocked in sync.(*Mutex).Lock (wait reason "sync.Mutex.Lock": it sits in the
+// semaphore queue of a mutex) and the call comes from the locker (a frame of package command's DefaultLocker).
+func parkedOnLockerMutex(gid int64) bool {
+	buf := make([]byte, 1<<16)
+	for {
+		n := runtime.Stack(buf, true)
+		if n < len(buf) {
+			buf = buf[:n]
+			break
+		}
+		buf = make([]byte, 2*len(buf))
+	}
+	head := fmt.Sprintf("goroutine %d [", gid)
+	for _, blk := range strings.Split(string(buf), "\n\n") {
+		if strings.HasPrefix(blk, head) {
+			return strings.HasPrefix(blk[len(head):], "sync.Mutex.Lock") && strings.Contains(blk, "sync.(*Mutex).Lock") &&
+				strings.Contains(blk, "internal/engine/command.(*DefaultLocker)")
+		}
+	}
+	return false
+}
+
+// awaitParked waits until the goroutine is parked on the locker's mutex (true) or is known to be gone (false); the
+// watchdog bounds the wait.  No outcome depends on how long this takes.
+func (h *lockHarness) awaitParked(gid *atomic.Int64, gone func() bool, who string) bool {
+	deadline := time.Now().Add(lockWatchdog)
+	for i := 0; h.dead == ""; i++ {
+		if g := gid.Load(); g > 0 && parkedOnLockerMutex(g) {
+			return true
+		}
+		if gone() {
+			return false
+		}
+		if time.Now().After(deadline) {
+			h.dead = "watchdog: " + who + " neither asked for the locker's mutex nor finished"
+			return false
+		}
+		if i < 20 {
+			runtime.Gosched()
+		} else {
+			time.Sleep(20 * time.Microsecond)
+		}
+	}
+	return false
+}
+
 func (h *lockHarness) isHolder(id int) bool {
 	r, ok := h.reqs[id]
 	return ok && r.returned && r.err == nil && r.unlock != nil && !r.released
@@ -244,6 +320,7 @@ func toInt(v any) int {
 func (h *lockHarness) do(op J) J {
 	h.ret = map[string]any{}
 	res := ""
+	ho := ""
 	sub := []any{}
 	switch op["op"] {
 	case "arrive":
@@ -256,6 +333,7 @@ func (h *lockHarness) do(op J) J {
 		r.arrived = true
 		acc := command.Accounts{Read: strs(op["read"]), Write: strs(op["write"])}
 		go func() {
+			r.gid.Store(goid())
 			u, err := h.locker.Lock(r.ctx, acc)
 			h.ev <- lockEvent{id: id, kind: "returned", unlock: u, err: err}
 		}()
@@ -349,6 +427,79 @@ func (h *lockHarness) do(op J) J {
 		<-done
 		res = "race"
 		h.settle()
+	case "handover":
+		r, b := h.req(toInt(op["r"])), toInt(op["b"])
+		if !(r.arrived && !r.returned && h.isHolder(b)) {
+			r.cancelled = true
+			r.cancel()
+			h.settle()
+			if h.releaseNow(b) {
+				res = "norace-released"
+			} else {
+				res = "norace-rejected"
+			}
+			h.settle()
+			break
+		}
+		hb := h.reqs[b]
+		hb.released = true
+		r.cancelled = true
+		var relG atomic.Int64
+		relDone := make(chan struct{})
+		release := func() bool {
+			go func() {
+				relG.Store(goid())
+				hb.unlock(h.base)
+				close(relDone)
+			}()
+			return h.awaitParked(&relG, func() bool {
+				select {
+				case <-relDone:
+					return true
+				default:
+					return false
+				}
+			}, fmt.Sprintf("the release of %d", b))
+		}
+		cancel := func() bool {
+			r.cancel()
+			return h.awaitParked(&r.gid, func() bool {
+				h.drainNow()
+				return r.returned
+			}, fmt.Sprintf("the cancelled request %d", r.id))
+		}
+		mu := h.locker.VerifMu()
+		mu.Lock()
+		var relParked, reqParked bool
+		if op["first"] == "cancel" {
+			reqParked = cancel()
+			relParked = release()
+		} else {
+			relParked = release()
+			reqParked = cancel()
+		}
+		mu.Unlock()
+		switch {
+		case relParked && reqParked:
+			ho = "both-parked"
+		case relParked:
+			ho = "request-not-parked"
+		case reqParked:
+			ho = "release-not-parked"
+		default:
+			ho = "none-parked"
+		}
+		if h.dead == "" {
+			select {
+			case <-relDone:
+			case <-time.After(lockWatchdog):
+				h.dead = "watchdog: an unlock function did not return"
+			}
+		}
+		res = "handover"
+		if h.dead == "" {
+			h.settle()
+		}
 	case "drain":
 		res = "drain"
 		all := map[string]any{}
@@ -384,7 +535,11 @@ func (h *lockHarness) do(op J) J {
 	for _, a := range v.Queue {
 		q = append(q, []any{append([]string{}, a.Read...), append([]string{}, a.Write...)})
 	}
-	return J{"res": res, "ret": h.ret, "sub": sub, "waiting": append([]int{}, h.waiting()...), "q": q, "rl": rl, "wl": v.Write}
+	st := J{"res": res, "ret": h.ret, "sub": sub, "waiting": append([]int{}, h.waiting()...), "q": q, "rl": rl, "wl": v.Write}
+	if ho != "" {
+		st["ho"] = ho
+	}
+	return st
 }
 
 // cleanup cancels what is still waiting so that no goroutine outlives the case (best effort after a watchdog).
@@ -518,17 +673,55 @@ func genLock(r *rng, n int, tier string, emit func(J)) {
 		nops := 3 + r.n(maxOps-2)
 		next, nondet := 0, 0
 		ops := []any{}
+		blockersOf := func(w *gReq) []*gReq {
+			var bs []*gReq
+			for _, hd := range sim.holders {
+				if gConflict(w, hd) {
+					bs = append(bs, hd)
+				}
+			}
+			return bs
+		}
+		// handover of waiter w (nil: choose one) with one of its blockers; needs a waiter and a holder
+		handover := func(w *gReq) {
+			first := "release"
+			if r.p(30) {
+				first = "cancel"
+			}
+			if w == nil {
+				var single []*gReq
+				for _, x := range sim.waitq {
+					if len(blockersOf(x)) == 1 {
+						single = append(single, x)
+					}
+				}
+				w = sim.waitq[r.n(len(sim.waitq))]
+				if len(single) > 0 && !r.p(20) {
+					w = single[r.n(len(single))]
+				}
+			}
+			cand := blockersOf(w)
+			if len(cand) == 0 || r.p(5) {
+				cand = sim.holders
+			}
+			b := cand[r.n(len(cand))]
+			ops = append(ops, J{"op": "handover", "r": w.id, "b": b.id, "first": first})
+			sim.holders = sim.drop(sim.holders, b.id)
+			sim.waitq = sim.drop(sim.waitq, w.id)
+			sim.recheck()
+		}
 		for idle := 0; len(ops) < nops-1 && idle < 4; {
 			c := r.n(100)
 			// nothing meaningful left for this kind of operation: draw again (a few bogus operations stay in)
-			if (c < 45 && next >= 8) || (c >= 45 && c < 75 && len(sim.holders) == 0 && !r.p(8)) ||
-				(c >= 75 && c < 87 && len(sim.waitq) == 0 && !r.p(15)) {
+			if (c < 43 && next >= 8) || (c >= 43 && c < 70 && len(sim.holders) == 0 && !r.p(8)) ||
+				(c >= 70 && c < 80 && len(sim.waitq) == 0 && !r.p(15)) ||
+				(c >= 88 && c < 97 && (len(sim.waitq) == 0 || len(sim.holders) == 0) && !r.p(4)) {
 				idle++
 				continue
 			}
 			idle = 0
 			switch {
-			case c < 45 && next < 8:
+			case c < 43 && next < 8:
 				q := &gReq{id: next, read: set(3), write: set(2)}
 				if r.p(15) && len(q.read) > 0 {
 					q.write = append(q.write, q.read[0]) // an account in both sets
@@ -590,9 +783,14 @@ func genLock(r *rng, n int, tier string, emit func(J)) {
 					}
 				} else {
 					sim.waitq = append(sim.waitq, q)
+					if r.p(32) { // the newcomer is cancelled while (one of) its blocker(s) releases
+						ops = append(ops, op)
+						handover(q)
+						continue
+					}
 				}
 				ops = append(ops, op)
-			case c < 75:
+			case c < 70:
 				if len(sim.holders) > 0 && !r.p(5) {
 					b := sim.holders[r.n(len(sim.holders))]
 					sim.holders = sim.drop(sim.holders, b.id)
@@ -601,7 +799,7 @@ func genLock(r *rng, n int, tier string, emit func(J)) {
 				} else {
 					ops = append(ops, J{"op": "release", "r": r.n(9)}) // anybody: mostly not a holder
 				}
-			case c < 87:
+			case c < 80:
 				if len(sim.waitq) > 0 && !r.p(15) {
 					w := sim.waitq[r.n(len(sim.waitq))]
 					sim.waitq = sim.drop(sim.waitq, w.id)
@@ -610,7 +808,7 @@ func genLock(r *rng, n int, tier string, emit func(J)) {
 					ops = append(ops, J{"op": "cancel", "r": r.n(next)}) // holder, finished or waiting
 					sim.waitq = sim.drop(sim.waitq, toInt(ops[len(ops)-1].(J)["r"]))
 				}
-			case c < 97:
+			case c < 88:
 				if len(sim.waitq) > 0 && len(sim.holders) > 0 && nondet < maxNondet {
 					w := sim.waitq[r.n(len(sim.waitq))]
 					var cand []*gReq
@@ -629,6 +827,19 @@ func genLock(r *rng, n int, tier string, emit func(J)) {
 					sim.waitq = sim.drop(sim.waitq, w.id)
 					sim.recheck()
 				}
+			case c < 97:
+				// a cancellation while a release is in progress, the order at the locker's mutex forced (deterministic:
+				// does not count as a nondeterministic operation).  Preferred: a waiter with exactly one blocker, so that
+				// the release grants it and its cancellation path runs having been granted.
+				if len(sim.waitq) == 0 || len(sim.holders) == 0 {
+					first := "release"
+					if r.p(30) {
+						first = "cancel"
+					}
+					ops = append(ops, J{"op": "handover", "r": r.n(next + 1), "b": r.n(9), "first": first}) // not a handover: anybody
+					break
+				}
+				handover(nil)
 			default:
 				if r.p(30) {
 					ops = append(ops, J{"op": "drain"})
